@@ -249,7 +249,56 @@ def _dechunk(data):
     return out
 
 
+class WsgiModuleServer(WsgiServer):
+    """The deployment of xandikos/wsgi.py: the module is executed with XANDIKOSPATH,
+    CURRENT_USER_PRINCIPAL and AUTOCREATE set (it creates the principal only when it does not
+    resolve yet), wrapped in wsgi_helpers.WellknownRedirector as the uwsgi examples do."""
+    frontend = "wsgi-module"
+
+    def __init__(self, root, prefix="/", principal="/user/", autocreate=True, defaults=True,
+                 index_threshold=None):
+        self.root = root
+        self.prefix = prefix if prefix.endswith("/") else prefix + "/"
+        self.script_name = self.prefix.rstrip("/")
+        self.kw = dict(principal=principal, autocreate=autocreate, defaults=defaults)
+        self.restart()
+
+    def restart(self):
+        import runpy
+        from xandikos.web import open_store_from_path
+        from xandikos.wsgi_helpers import WellknownRedirector
+        open_store_from_path.cache_clear()
+        env = {"XANDIKOSPATH": self.root, "CURRENT_USER_PRINCIPAL": self.kw["principal"],
+               "AUTOCREATE": "defaults" if self.kw["defaults"] else ("yes" if self.kw["autocreate"] else "no")}
+        old = {k: os.environ.get(k) for k in env}
+        os.environ.update(env)
+        try:
+            ns = runpy.run_module("xandikos.wsgi", run_name="xandikos.wsgi")
+        finally:
+            for k, v in old.items():
+                if v is None:
+                    os.environ.pop(k, None)
+                else:
+                    os.environ[k] = v
+        self.backend = ns["backend"]
+        self.app = WellknownRedirector(ns["app"], self.prefix)
+
+    def request(self, method, target, headers=None, body=b""):
+        if target.split("?")[0].startswith("/.well-known/") and self.script_name:
+            # the redirector is mounted at the server root
+            saved = self.script_name
+            self.script_name = ""
+            try:
+                return super().request(method, target, headers, body)
+            finally:
+                self.script_name = saved
+        return super().request(method, target, headers, body)
+
+
 def make_server(frontend, root, **kw):
+    if frontend == "wsgi-module":
+        kw.pop("index_threshold", None)
+        return WsgiModuleServer(root, **kw)
     return WsgiServer(root, **kw) if frontend == "wsgi" else AioServer(root, **kw)
 
 
